@@ -73,7 +73,6 @@ impl Driver {
     fn new(kind: &'static str, np: u32, serial: u64) -> Self {
         Driver { fl: Freelist::new(), st: make_storage(kind, np, serial), np, kind, evs: vec![] }
     }
-    #[allow(dead_code)]
     fn word(&self, p: u32, i: u32) -> Option<u32> {
         let pg = self.st.page(p).ok()?;
         let o = 4 * i as usize;
@@ -472,6 +471,87 @@ fn gen_trunk_span(rng: &mut Rng, serial: u64, kind: &'static str, trunks: u32, v
     d
 }
 
+/// Disciplined multi-trunk histories in which the client has WRITTEN into the pages it releases:
+/// whenever the next release() is going to turn the released page into a trunk (head_page == 0 or
+/// head trunk full), and now and then otherwise, the page released is one whose first 9 words
+/// (page header words 0..3, the words a trunk header occupies: next = 4, count = 5, first entries
+/// 6..8) the client has just filled with small / large values and plausible page numbers.
+/// A release that does not rewrite the whole trunk header, or an allocate that trusts stale
+/// entries, then hands out pages twice or miscounts.
+fn gen_dirty_span(rng: &mut Rng, serial: u64, kind: &'static str, trunks: u32, variant: u64) -> Driver {
+    let np = trunks * (TME + 1) + 60 + rng.below(40) as u32;
+    let mut d = Driver::new(kind, np, serial);
+    let mut c = Client::new(np);
+    let dirty_then_release = |c: &mut Client, d: &mut Driver, rng: &mut Rng| -> bool {
+        if c.held.is_empty() { return false; }
+        // take the page from the top end of what the client holds (keeps the bulk runs ascending)
+        let mut k = 0usize;
+        for (i, x) in c.held.iter().enumerate() { if *x > c.held[k] { k = i; } }
+        if rng.chance(1, 3) { k = rng.below(c.held.len() as u64) as usize; }
+        let p = c.held.swap_remove(k);
+        let some_free = c.free.iter().next().copied().unwrap_or(1);
+        let some_held = c.held.first().copied().unwrap_or(1);
+        for i in 0..9u32 {
+            let v = match i {
+                4 => *rng.pick(&[some_free, some_held, p, np + 5, u32::MAX, 1, 0]),
+                5 => *rng.pick(&[1u32, 2, 3, 3, TME - 1, TME, TME + 1, u32::MAX, 7]),
+                6..=8 => *rng.pick(&[some_free, some_held, p, 1, 2, np - 1, u32::MAX]),
+                _ => *rng.pick(&[0u32, 1, 0x30, 0xFFFF, u32::MAX, 0x4000_0010]),
+            };
+            d.poke(p, i, v);
+        }
+        c.release(d, p);
+        true
+    };
+    let refill = |c: &mut Client, d: &mut Driver, rng: &mut Rng, target: u32| {
+        // release until `target` pages are free; ascending bulk, dirty pages at every trunk creation
+        c.held.sort_unstable_by(|a, b| b.cmp(a));      // pop() gives the smallest held page
+        while d.fl.free_count() < target && !c.held.is_empty() {
+            let h = d.fl.head_page();
+            let creates = h == 0 || d.word(h, 5) == Some(TME);
+            if creates || rng.chance(1, 700) {
+                dirty_then_release(c, d, rng);
+                c.held.sort_unstable_by(|a, b| b.cmp(a));
+            } else {
+                let p = c.held.pop().unwrap();
+                c.release(d, p);
+            }
+        }
+    };
+    let full = (trunks - 1) * (TME + 1) + 2 + rng.below(TME as u64 / 2) as u32;
+    refill(&mut c, &mut d, rng, full.min(np - 2));
+    match variant % 4 {
+        0 => {}
+        1 => {
+            // drain completely (old trunk pages come back with their trunk image), refill, drain
+            c.drain(&mut d);
+            let t2 = (TME + 3 + rng.below(40) as u32).min(np - 2);
+            refill(&mut c, &mut d, rng, t2);
+        }
+        2 => {
+            // oscillate exactly at a trunk boundary: take the newest trunk's page back, dirty it, release it again
+            let over = d.fl.free_count() % (TME + 1);
+            for _ in 0..over { c.alloc(&mut d); }                       // head trunk now full, newer trunks gone
+            for _ in 0..(3 + rng.below(5)) {
+                dirty_then_release(&mut c, &mut d, rng);                // creates a trunk out of a dirty page
+                if rng.chance(1, 2) { dirty_then_release(&mut c, &mut d, rng); }
+                let k = 1 + rng.below(3);
+                for _ in 0..k { c.alloc(&mut d); }
+                while d.fl.free_count() % (TME + 1) != 0 && d.fl.free_count() > 0 { if d.fl.free_count() % (TME + 1) > 3 { break; } c.alloc(&mut d); }
+            }
+        }
+        _ => {
+            // allocate down through a whole trunk and refill over the boundary with dirty pages
+            let k = TME as u64 + 2 + rng.below(20);
+            for _ in 0..k { c.alloc(&mut d); }
+            let t2 = (d.fl.free_count() + TME + 5).min(np - 2);
+            refill(&mut c, &mut d, rng, t2);
+        }
+    }
+    c.drain(&mut d);
+    d
+}
+
 /// every disciplined release/allocate history of length <= max_len over pages 1..=pages
 fn gen_exhaustive(pages: u32, max_len: usize, f: &mut dyn FnMut(Driver)) {
     let np = pages + 2;
@@ -552,6 +632,15 @@ fn gen(a: &Args) {
             emit(&mut w, &mut st, &d, "trunk_span");
             if i % 3 == 2 { w.flush(); }      // long histories: a few per shard
         }
+        let dirty = if t { 160 } else { 8 };
+        for i in 0..dirty {
+            serial += 1;
+            let trunks = if t { 2 + (i % 3) as u32 } else { 2 + (i % 4 == 3) as u32 };
+            let kind = if i % 5 == 4 { "mmap" } else { "mem" };
+            let d = gen_dirty_span(&mut rng, serial, kind, trunks, i as u64);
+            emit(&mut w, &mut st, &d, "dirty_trunk_span");
+            if i % 3 == 2 { w.flush(); }
+        }
     }
     let extra = vec![
         ("multi_trunk_chain_cases".to_string(), st.multi_trunk.to_string()),
@@ -581,6 +670,8 @@ fn search(a: &Args) {
     };
     gen_exhaustive(4, 6, &mut |d| { tried += 1; consider(d, &mut fails); });
     for i in 0..8u64 { serial += 1; let d = gen_trunk_span(&mut rng, serial, "mem", 2 + (i % 3) as u32, i); tried += 1; consider(d, &mut fails); }
+    // multi-trunk histories whose trunk pages were dirtied by the client (each ~10^4 calls)
+    for i in 0..400u64 { serial += 1; let d = gen_dirty_span(&mut rng, serial, "mem", 2 + (i % 3 == 2) as u32, i); tried += 1; consider(d, &mut fails); }
     let budget = a.budget / 4;
     while tried < budget && t0.elapsed().as_secs() < 240 {
         serial += 1;
